@@ -799,7 +799,54 @@ func checkHetero(h HeteroCase) (key, msg string, used int64) {
 	return "total.write." + fam + ".panic:" + panicSite(stack), fmt.Sprintf("writer %s on two styles/regions with attribute profiles %+v: %s\n%s", h.Writer, h, res, firstFrames(stack)), used
 }
 
+// ManyCase: a plain list of N cues (counts around every digit-count and power-of-two boundary a writer could
+// size a field or a buffer by) handed to one writer; step budget linear in N.
+type ManyCase struct {
+	N      int    `json:"cues"`
+	Writer string `json:"writer"`
+}
+
+func checkMany(mc ManyCase) (key, msg string, used int64) {
+	s := astisub.NewSubtitles()
+	s.Metadata = &astisub.Metadata{Framerate: 25, STLDisplayStandardCode: "0"}
+	line := []astisub.Line{{Items: []astisub.LineItem{{Text: "x"}}}}
+	for i := 0; i < mc.N; i++ {
+		s.Items = append(s.Items, &astisub.Item{StartAt: time.Duration(i) * 40 * time.Millisecond, EndAt: time.Duration(i)*40*time.Millisecond + 30*time.Millisecond, Lines: line})
+	}
+	res, used, stack := guarded(mc.N*100, func() { callWriter(mc.Writer, s) })
+	fam := strings.Split(mc.Writer, "-")[0]
+	switch {
+	case res == "":
+		return "", "", used
+	case res == "budget":
+		return "total.write." + fam + ".step-budget", fmt.Sprintf("writer %s exceeded its step budget on a list of %d cues", mc.Writer, mc.N), used
+	}
+	return "total.write." + fam + ".panic:" + panicSite(stack), fmt.Sprintf("writer %s on a list of %d plain cues: %s\n%s", mc.Writer, mc.N, res, firstFrames(stack)), used
+}
+
 func writersRun(c *core.Ctx) {
+	manyN := []int{255, 256, 257, 999, 1000, 9999, 10000, 65535, 65536, 99999, 100000, 100001}
+	if c.Tier == core.Thorough {
+		manyN = append(manyN, 131072, 262144, 999999, 1000000)
+	}
+	for _, n := range manyN {
+		for _, w := range writerNames {
+			if !c.Mine() {
+				continue
+			}
+			mc := ManyCase{n, w}
+			key, msg, used := checkMany(mc)
+			out := "ok"
+			if key != "" {
+				out = key
+			}
+			c.Record("write.many."+w, core.Hash64(out), core.Hash64("many", w, fmt.Sprint(n)), func() interface{} { return mc })
+			_ = used
+			if key != "" {
+				c.Violate("many", key, msg, mc, n)
+			}
+		}
+	}
 	// heterogeneous definition tables: every ordered pair of single-attribute profiles for two styles x 3 region profiles
 	for a := range attrProfiles {
 		for b := range attrProfiles {
@@ -852,6 +899,12 @@ func replay(sub string, raw json.RawMessage) (string, bool) {
 	if !hooks.Instrumented {
 		// plain build: still meaningful for panics (no step budget)
 	}
+	if sub == "many" {
+		var mc ManyCase
+		json.Unmarshal(raw, &mc)
+		k, m, _ := checkMany(mc)
+		return m, k != ""
+	}
 	if sub == "hetero" {
 		var h HeteroCase
 		json.Unmarshal(raw, &h)
@@ -875,8 +928,8 @@ func init() {
 		ID: "C08", Level: "exploration",
 		Rule: "readers: three exhaustively enumerated input families fed to the reader of their format (and across formats, and through the extension-dispatching opener): (1) all words of length <=L over a per-format alphabet of 12-13 lexemes, (2) the full single-mutation ball around every corpus document (every prefix, every single-byte deletion, every single-byte replacement by each of 12 bytes, every line-boundary splice of two same-format documents), (3) structured binary variations (STL GSI fields, DFC/DSC/CCT strings, every byte value at TTI text positions and header bytes, diacritic-led byte pairs; TS families contributed by the teletext encoder); writers: a nil-lattice of the public types explored within B deviations (every optional pointer/map independently present, nil or odd; 11 text atoms; 5 time atoms) to all five writers (TTML x 3 indents). Oracle: no panic (recover at the public entry point; a panic inside the third-party demuxer is excluded) and steps executed in package astisub <= 50000 + 400*len(input) (statement-level step counter of the instrumented build; no wall-clock oracle), also on scaled inputs of 2^k cues; distinct = (reader, input bytes) / (writer, lattice point)",
 		Scope: map[core.Tier]string{
-			core.Quick:    "token words L<=5 (cross-format L<=3); mutation ball around all corpus documents; STL structured families; scaled inputs up to 4096 cues; writer lattice B=2",
-			core.Thorough: "token words L<=6 (cross-format L<=4); writer lattice B=3",
+			core.Quick:    "token words L<=5 (cross-format L<=3); mutation ball around all corpus documents; STL structured families; scaled inputs up to 4096 cues; writer lattice B=2; plain lists of 255..100001 cues (12 counts around digit-count and power-of-two boundaries) to every writer",
+			core.Thorough: "token words L<=6 (cross-format L<=4); writer lattice B=3; plain lists up to 1000000 cues",
 		},
 		Assumptions: []string{"Go toolchain and standard library", "steps inside dependencies (bufio, encoding/xml, x/net/html, astits) are not counted: their loops are bounded by the input length", "instrumented build = plain build with inert hooks (validated in setup)"},
 		Instr:       instrRun, Replay: replay,
